@@ -306,6 +306,25 @@ def buildFail (ps : List (List Step)) : Option FailTab :=
 /-- `BuildFailureLinks()`. -/
 def Trie.build (t : Trie) : Option Trie := (buildFail t.pats).map fun F => { t with fail := F }
 
+/-- `BuildFailureLinks()` on a trie that may already carry `fail` pointers from an earlier
+build (Insert…, Build, Insert…, Build): the code does not clear them; it starts the same two
+loops and overwrites a node's pointer when the node is pushed.  In the model the old table
+`F0` stays underneath and `lookup` finds the newest entry first.  `buildFail ps` is the case
+`F0 = []` (definitionally).  That no stale entry is ever read, i.e. that the result agrees
+with a first build over all patterns, is `c05_rebuild_eq_build`. -/
+def buildFailFrom (ps : List (List Step)) (F0 : FailTab) : Option FailTab :=
+  match childrenOf ps [] with
+  | none => none
+  | some cs =>
+    match seedRoot cs { q := Queue.init 10, F := F0 } with
+    | none => none
+    | some s0 => (bfsLoop ps (nodeBound ps + 1) s0).map (·.F)
+
+/-- `BuildFailureLinks()` called again on a trie that has been built before (and possibly
+extended by further `Insert`s since). -/
+def Trie.rebuild (t : Trie) : Option Trie :=
+  (buildFailFrom t.pats t.fail).map fun F => { t with fail := F }
+
 /-! ### the automaton step shared by Match / find / FuzzySearch -/
 
 /-- `idx := index(node.children, v); for node != root && idx < 0 { node = node.fail; idx = index(node.children, v) }`. -/
